@@ -89,6 +89,7 @@ class Backend(object):
         self.devices = list(devices)
         self.calls = []            # (index, name, args...)
         self.faults = {}           # transfer-call index -> error name
+        self.call_faults = {}      # backend method name -> error name (raised once, at the next call of that method)
         self.ntransfers = 0
         self.context_opened = 0
 
@@ -204,14 +205,21 @@ class USBDeviceHandle(object):
         BACKEND.log("detachKernelDriver", interface)
         self.kernel_detached.add(interface)
 
+    def _call_fault(self, name):
+        err = BACKEND.call_faults.pop(name, None)
+        if err:
+            raise ERRORS[err]()
+
     def claimInterface(self, interface):
         BACKEND.log("claimInterface", interface)
+        self._call_fault("claimInterface")
         if self.closed:
             raise USBErrorNoDevice()
         self.claimed.add(interface)
 
     def releaseInterface(self, interface):
         BACKEND.log("releaseInterface", interface)
+        self._call_fault("releaseInterface")
         if interface not in self.claimed:
             raise USBErrorNotFound()
         self.claimed.discard(interface)
@@ -219,6 +227,7 @@ class USBDeviceHandle(object):
     def close(self):
         BACKEND.log("close")
         self.closed = True
+        self._call_fault("close")
 
     def _transfer_fault(self):
         k = BACKEND.ntransfers
